@@ -250,7 +250,41 @@ theorem heading_level_rag_clamped (level offset max : Int) (hl : 1 ≤ level) (h
     headingLevelRag level offset max = Max.max 1 (Min.min (level + offset) (Min.min max 6)) := by
   unfold headingLevelRag
   simp only
-  split <;> split <;> split <;> omega
+  split <;> split <;> split <;> split <;> omega
+
+/-- the chunk writer too gives a valid ATX level for all integers (any explicit or missing level,
+any offset, any maximum including "unset") — since the fix that added its cap at 6 -/
+theorem heading_level_rag_range (level offset max : Int) :
+    1 ≤ headingLevelRag level offset max ∧ headingLevelRag level offset max ≤ 6 := by
+  unfold headingLevelRag
+  simp only
+  split <;> split <;> split <;> split <;> omega
+
+/-- the chunk writer's arithmetic is `AdjustHeadingLevel` on the explicit level (a missing level,
+0, counts as 2): the same clamp for every maximum, also above 6 and unset -/
+theorem heading_level_rag_eq (level offset max : Int) (hl : 0 ≤ level) :
+    headingLevelRag level offset max = headingLevel (if level = 0 then 2 else level) offset max := by
+  by_cases h0 : level = 0
+  · subst h0
+    unfold headingLevelRag headingLevel
+    simp only [if_true]
+    have : ¬ ((2 : Int) < 1) := by omega
+    simp only [this, if_false]
+  · have h1 : ¬ level < 1 := by omega
+    unfold headingLevelRag headingLevel
+    simp only [h0, h1, if_false]
+
+theorem heading_level_rag_clamped_all (level offset max : Int) (hl : 1 ≤ level) (hm : 1 ≤ max) :
+    headingLevelRag level offset max = Max.max 1 (Min.min (level + offset) (Min.min max 6)) := by
+  unfold headingLevelRag
+  simp only
+  split <;> split <;> split <;> split <;> omega
+
+theorem heading_level_rag_nomax (level offset : Int) (hl : 1 ≤ level) :
+    headingLevelRag level offset 0 = Max.max 1 (Min.min (level + offset) 6) := by
+  unfold headingLevelRag
+  simp only
+  split <;> split <;> split <;> split <;> omega
 
 example : headingLevel 3 7 4 = 4 ∧ headingLevel 2 (-2) 6 = 1 ∧ headingLevel 6 7 0 = 6 := by decide
 
